@@ -1,50 +1,476 @@
-//! probe (temporary first version)
+//! C40 harness: JSON-schema -> EmmyLua annotations (crates/schema_to_emmylua).
+//!   c40 corr   --seed S --n N [--corpus FILE]  -> JSON lines {"schema":..,"text":..,"root":..} (implementation observations)
+//!   c40 search --seed S --n N [--corpus FILE]  -> JSON lines {"signature":..,"what":..,"schema":..} + {"summary":{..}}
+//!   c40 one    --schema '<json>'               -> observation + violations of one schema (replay)
+//! Oracle of `search` (the property text): conversion does not panic, the output parsed by LuaParser has no
+//! parse error (syntax or doc), and a `---@class` / `---@alias` with exactly the reported root type name exists.
 use emmylua_parser::{LuaAstNode, LuaDocTagAlias, LuaDocTagClass, LuaParser, ParserConfig};
 use schema_to_emmylua::SchemaConverter;
-use serde_json::{Value, json};
-use vh_common::{Args, guarded};
+use serde_json::{Map, Value, json};
+use std::collections::BTreeMap;
+use vh_common::{Args, Rng, guarded};
 
-fn observe(schema: &Value) -> Value {
-    let r = guarded(|| SchemaConverter::new(false).convert(schema));
-    match r {
-        Err(e) => json!({"panic": e}),
+const PLAIN: &[&str] = &["name", "count", "kind", "items", "level", "Config", "Item", "x1", "_priv", "user_id", "Color", "Mode", "public", "readonly"];
+const ODD: &[&str] = &[
+    "a\"b", "x\ny", "back\\slash", "it's", "both'\"q", "名前", "é", "", "$schema", "with space", "dash-name", "dot.name",
+    "a..b", "1abc", "tab\there", "cr\rhere", "nul\u{0}x", "@at", "#hash", "]br[", "a|b", "opt?", "--", "😀", "\u{2028}ls",
+    "\u{7f}del", "trail\\", "\"", "'", "\n", "in", "true", "fun", "a.b.c", ".lead", "end.", "x-y-z", "--[[", "]]", "a`b", "<T>",
+    "a,b", "(p)", "{o}", "\\n", "\\x22", "\u{feff}bom", "\u{1b}esc", "private", "protected", "package", "internal", "nil", "and",
+    "or", "end", "local", "function", "not", "return", "keyof", "extends", "as", "else", "async", "sync", "string", "any", "table", "self",
+];
+const DESCS: &[&str] = &[
+    "The name", "Item count", "multi\nline text", "cr\rinside", "crlf\r\nline", "@field x", "  @class y", "| foo", "|+ bar",
+    "#region x", "--[[ y ]]", "]] z", "- item\n- item2", "--- triple", "名前 unicode 😀", "nul\u{0}char", "", " ", "\n", "@",
+    "@param", "ends with backslash \\", "quote \" and ' inside", "tab\tinside", "\u{2028}sep", "@type string|", "```lua\nlocal x\n```",
+];
+const PRIMS: &[&str] = &["string", "integer", "number", "boolean", "null", "object", "array", "weird", ""];
+
+struct Gen {
+    rng: Rng,
+    stats: BTreeMap<&'static str, usize>,
+    defs: Vec<String>,
+}
+
+impl Gen {
+    fn hit(&mut self, k: &'static str) {
+        *self.stats.entry(k).or_insert(0) += 1;
+    }
+    fn name(&mut self, odd_pct: usize) -> String {
+        if self.rng.chance(odd_pct, 100) {
+            self.hit("odd_name");
+            let a = self.rng.pick(ODD).to_string();
+            if self.rng.chance(1, 4) { format!("{}{}", self.rng.pick(PLAIN), a) } else { a }
+        } else {
+            self.rng.pick(PLAIN).to_string()
+        }
+    }
+    fn desc(&mut self) -> String {
+        if self.rng.chance(1, 2) {
+            self.hit("odd_description");
+            self.rng.pick(DESCS).to_string()
+        } else {
+            "plain description".to_string()
+        }
+    }
+    fn maybe_desc(&mut self, m: &mut Map<String, Value>) {
+        if self.rng.chance(1, 3) {
+            let d = self.desc();
+            m.insert("description".into(), json!(d));
+        }
+    }
+    fn str_values(&mut self, odd_pct: usize) -> Vec<Value> {
+        let n = self.rng.below(4);
+        (0..n)
+            .map(|_| {
+                if self.rng.chance(1, 8) {
+                    self.hit("non_string_enum_value");
+                    match self.rng.below(4) {
+                        0 => json!(self.rng.below(100) as i64 - 50),
+                        1 => json!(true),
+                        2 => Value::Null,
+                        _ => json!({"k": 1}),
+                    }
+                } else {
+                    json!(self.name(odd_pct))
+                }
+            })
+            .collect()
+    }
+    fn reference(&mut self, odd_pct: usize) -> Value {
+        self.hit("ref");
+        let target = if !self.defs.is_empty() && self.rng.chance(3, 4) {
+            let i = self.rng.below(self.defs.len());
+            self.defs[i].clone()
+        } else {
+            self.name(odd_pct)
+        };
+        match self.rng.below(8) {
+            0 => json!({"$ref": format!("#/definitions/{target}")}),
+            1 => json!({"$ref": target}),
+            2 => json!({"$ref": "#"}),
+            3 => json!({"$ref": ""}),
+            _ => json!({"$ref": format!("#/$defs/{target}")}),
+        }
+    }
+    /// a schema node
+    fn node(&mut self, depth: usize, odd_pct: usize) -> Value {
+        let k = if depth == 0 { self.rng.below(5) } else { self.rng.below(14) };
+        let mut m = Map::new();
+        match k {
+            0 | 1 => {
+                let t = *self.rng.pick(PRIMS);
+                m.insert("type".into(), json!(t));
+            }
+            2 => {
+                self.hit("type_array");
+                let n = self.rng.below(4);
+                let ts: Vec<Value> = (0..n).map(|_| json!(*self.rng.pick(PRIMS))).collect();
+                m.insert("type".into(), json!(ts));
+            }
+            3 => return self.reference(odd_pct),
+            4 => {
+                self.hit("enum");
+                if self.rng.chance(1, 2) {
+                    m.insert("type".into(), json!("string"));
+                }
+                m.insert("enum".into(), Value::Array(self.str_values(odd_pct)));
+            }
+            5 => {
+                self.hit("array");
+                m.insert("type".into(), json!("array"));
+                if self.rng.chance(4, 5) {
+                    m.insert("items".into(), self.node(depth - 1, odd_pct));
+                }
+            }
+            6 => {
+                self.hit("object");
+                return self.object(depth - 1, odd_pct, false);
+            }
+            7 => {
+                self.hit("anyOf");
+                let n = self.rng.below(4);
+                let mut v: Vec<Value> = (0..n).map(|_| self.node(depth - 1, odd_pct)).collect();
+                if self.rng.chance(1, 3) {
+                    v.push(json!({"type": "null"}));
+                }
+                for it in v.iter_mut() {
+                    if self.rng.chance(1, 3) {
+                        if let Some(o) = it.as_object_mut() {
+                            let d = self.desc();
+                            o.insert("description".into(), json!(d));
+                        }
+                    }
+                }
+                m.insert("anyOf".into(), Value::Array(v));
+            }
+            8 => {
+                self.hit("oneOf_const");
+                let n = self.rng.below(4);
+                let v: Vec<Value> = (0..n)
+                    .map(|_| {
+                        let mut o = Map::new();
+                        if self.rng.chance(3, 4) {
+                            o.insert("const".into(), json!(self.name(odd_pct)));
+                        } else {
+                            o.insert("enum".into(), Value::Array(self.str_values(odd_pct)));
+                        }
+                        self.maybe_desc(&mut o);
+                        Value::Object(o)
+                    })
+                    .collect();
+                m.insert("oneOf".into(), Value::Array(v));
+            }
+            9 => {
+                self.hit("oneOf_mixed");
+                let n = self.rng.below(4);
+                let mut v: Vec<Value> = (0..n).map(|_| self.node(depth - 1, odd_pct)).collect();
+                if self.rng.chance(1, 3) {
+                    v.push(json!({"type": "null"}));
+                }
+                if self.rng.chance(1, 3) {
+                    v.push(json!({"const": self.name(odd_pct)}));
+                }
+                m.insert("oneOf".into(), Value::Array(v));
+            }
+            10 => {
+                self.hit("allOf");
+                let n = 1 + self.rng.below(2);
+                let v: Vec<Value> = (0..n).map(|_| self.node(depth - 1, odd_pct)).collect();
+                m.insert("allOf".into(), Value::Array(v));
+            }
+            11 => {
+                self.hit("const");
+                m.insert("const".into(), if self.rng.chance(4, 5) { json!(self.name(odd_pct)) } else { json!(3) });
+            }
+            12 => {
+                self.hit("map");
+                m.insert("type".into(), json!("object"));
+                m.insert("additionalProperties".into(), if self.rng.chance(4, 5) { self.node(depth - 1, odd_pct) } else { json!(true) });
+            }
+            _ => {}
+        }
+        self.maybe_desc(&mut m);
+        Value::Object(m)
+    }
+    fn object(&mut self, depth: usize, odd_pct: usize, root: bool) -> Value {
+        let mut m = Map::new();
+        if self.rng.chance(3, 4) {
+            m.insert("type".into(), json!("object"));
+        }
+        let np = self.rng.below(5);
+        let mut props = Map::new();
+        let mut names = Vec::new();
+        for _ in 0..np {
+            let n = self.name(odd_pct);
+            names.push(n.clone());
+            props.insert(n, self.node(depth, odd_pct));
+        }
+        if !root || self.rng.chance(5, 6) {
+            m.insert("properties".into(), Value::Object(props));
+        }
+        if self.rng.chance(1, 2) {
+            let req: Vec<Value> = names.iter().filter(|_| self.rng.chance(1, 2)).map(|n| json!(n)).collect();
+            m.insert("required".into(), Value::Array(req));
+        }
+        if self.rng.chance(1, 4) {
+            self.hit("additionalProperties");
+            m.insert("additionalProperties".into(), if self.rng.chance(3, 4) { self.node(depth, odd_pct) } else { json!(false) });
+        }
+        self.maybe_desc(&mut m);
+        Value::Object(m)
+    }
+    /// replace a random member by a wrongly typed value
+    fn malform(&mut self, v: &mut Value) {
+        self.hit("malformed");
+        let bad = [json!(5), json!("str"), json!([1, "a", null]), json!({"x": {"type": 7}}), Value::Null, json!(true), json!([])];
+        if let Some(o) = v.as_object_mut() {
+            let key = *self.rng.pick(&["properties", "required", "enum", "type", "$defs", "oneOf", "anyOf", "items", "title", "description",
+                "additionalProperties", "$ref", "const"]);
+            o.insert(key.into(), self.rng.pick(&bad).clone());
+        }
+    }
+    fn schema(&mut self) -> Value {
+        self.defs.clear();
+        let odd_pct = *self.rng.pick(&[0usize, 10, 35, 70]);
+        let depth = 1 + self.rng.below(3);
+        let ndefs = self.rng.below(5);
+        for _ in 0..ndefs {
+            let n = self.name(odd_pct);
+            self.defs.push(n);
+        }
+        let mut root = match self.rng.below(8) {
+            0 => self.node(depth, odd_pct),
+            _ => self.object(depth, odd_pct, true),
+        };
+        let mut defs = Map::new();
+        for n in self.defs.clone() {
+            let mut d = self.node(depth, odd_pct);
+            if self.rng.chance(1, 8) {
+                // nested definitions inside a definition
+                if let Some(o) = d.as_object_mut() {
+                    self.hit("nested_defs");
+                    o.insert("$defs".into(), json!({"Inner": {"type": "string"}}));
+                }
+            }
+            defs.insert(n, d);
+        }
+        if let Some(o) = root.as_object_mut() {
+            match self.rng.below(8) {
+                0 => {
+                    self.hit("no_title");
+                }
+                1 => {
+                    self.hit("odd_title");
+                    o.insert("title".into(), json!(self.rng.pick(ODD).to_string()));
+                }
+                _ => {
+                    o.insert("title".into(), json!(self.name(odd_pct)));
+                }
+            }
+            if ndefs > 0 || self.rng.chance(1, 4) {
+                o.insert("$defs".into(), Value::Object(defs));
+            }
+        }
+        if self.rng.chance(1, 10) {
+            self.malform(&mut root);
+        }
+        if self.rng.chance(1, 40) {
+            self.hit("non_object_root");
+            root = self.rng.pick(&[json!(true), json!([1]), json!("s"), Value::Null, json!(4)]).clone();
+        }
+        root
+    }
+}
+
+struct Obs {
+    panic: Option<String>,
+    text: String,
+    root: String,
+    errors: Vec<(String, String, usize, usize)>,
+    declared: Vec<String>,
+}
+
+fn observe(schema: &Value) -> Obs {
+    match guarded(|| SchemaConverter::new(false).convert(schema)) {
+        Err(e) => Obs { panic: Some(e), text: String::new(), root: String::new(), errors: vec![], declared: vec![] },
         Ok(res) => {
-            let text = res.annotation_text.clone();
-            let tree = LuaParser::parse(&text, ParserConfig::default());
-            let errs: Vec<Value> = tree
-                .get_errors()
-                .iter()
-                .map(|e| json!([format!("{:?}", e.kind), e.message, u32::from(e.range.start()), u32::from(e.range.end())]))
-                .collect();
-            let chunk = tree.get_chunk_node();
-            let mut declared = Vec::new();
-            for c in chunk.descendants::<LuaDocTagClass>() {
-                if let Some(n) = c.get_name_token() {
-                    declared.push(n.get_name_text().to_string());
+            let text = res.annotation_text;
+            let parsed = guarded(|| {
+                let tree = LuaParser::parse(&text, ParserConfig::default());
+                let errors: Vec<(String, String, usize, usize)> = tree
+                    .get_errors()
+                    .iter()
+                    .map(|e| (format!("{:?}", e.kind), e.message.clone(), u32::from(e.range.start()) as usize, u32::from(e.range.end()) as usize))
+                    .collect();
+                let chunk = tree.get_chunk_node();
+                let mut declared = Vec::new();
+                for c in chunk.descendants::<LuaDocTagClass>() {
+                    if let Some(n) = c.get_name_token() {
+                        declared.push(n.get_name_text().to_string());
+                    }
                 }
-            }
-            for c in chunk.descendants::<LuaDocTagAlias>() {
-                if let Some(n) = c.get_name_token() {
-                    declared.push(n.get_name_text().to_string());
+                for c in chunk.descendants::<LuaDocTagAlias>() {
+                    if let Some(n) = c.get_name_token() {
+                        declared.push(n.get_name_text().to_string());
+                    }
                 }
+                (errors, declared)
+            });
+            match parsed {
+                Ok((errors, declared)) => Obs { panic: None, text, root: res.root_type_name, errors, declared },
+                Err(e) => Obs { panic: Some(format!("parser panicked on the output: {e}")), text, root: res.root_type_name, errors: vec![], declared: vec![] },
             }
-            json!({"text": text, "root": res.root_type_name, "errors": errs, "declared": declared})
         }
     }
 }
 
+fn line_of(text: &str, off: usize) -> &str {
+    let off = off.min(text.len());
+    let mut s = off;
+    while s > 0 && !text.is_char_boundary(s) {
+        s -= 1;
+    }
+    let start = text[..s].rfind('\n').map(|i| i + 1).unwrap_or(0);
+    let end = text[s..].find('\n').map(|i| s + i).unwrap_or(text.len());
+    &text[start..end]
+}
+
+fn line_kind(line: &str) -> &'static str {
+    if line.starts_with("---@class") {
+        "class"
+    } else if line.starts_with("---@field") {
+        "field"
+    } else if line.starts_with("---@alias") {
+        "alias"
+    } else if line.starts_with("---|") {
+        "variant"
+    } else if line.starts_with("---") {
+        "doc"
+    } else if line.is_empty() {
+        "blank"
+    } else {
+        "code"
+    }
+}
+
+fn msg_class(m: &str) -> String {
+    let mut s: String = m.chars().filter(|c| !c.is_ascii_digit()).collect();
+    if let Some(i) = s.find(", but get") {
+        s.truncate(i);
+    }
+    s.truncate(48);
+    s
+}
+
+fn violations(schema: &Value, o: &Obs) -> Vec<Value> {
+    let mut out = Vec::new();
+    if let Some(p) = &o.panic {
+        out.push(json!({"signature": "panic", "what": format!("conversion panicked: {p}"), "schema": schema}));
+        return out;
+    }
+    let mut seen = std::collections::BTreeSet::new();
+    for (kind, msg, s, _e) in &o.errors {
+        let line = line_of(&o.text, *s);
+        let sig = format!("{}:{}", line_kind(line), msg_class(msg));
+        if seen.insert(sig.clone()) {
+            out.push(json!({"signature": sig, "what": format!("{kind} `{msg}` at byte {s} in output line {line:?}"), "schema": schema, "text": o.text}));
+        }
+    }
+    if !o.declared.iter().any(|d| *d == o.root) {
+        out.push(json!({"signature": "root-undeclared", "what": format!("reported root type {:?} is not declared by any ---@class / ---@alias (declared: {:?})", o.root, o.declared), "schema": schema, "text": o.text}));
+    }
+    out
+}
+
+/// all characters of the keys and strings of a value
+fn collect_chars(v: &Value, out: &mut std::collections::BTreeSet<char>) {
+    match v {
+        Value::String(s) => out.extend(s.chars()),
+        Value::Array(a) => a.iter().for_each(|x| collect_chars(x, out)),
+        Value::Object(m) => {
+            for (k, x) in m {
+                out.extend(k.chars());
+                collect_chars(x, out);
+            }
+        }
+        _ => {}
+    }
+}
+
+fn load_corpus(path: &str) -> Vec<Value> {
+    if path.is_empty() {
+        return vec![];
+    }
+    match std::fs::read_to_string(path) {
+        Ok(s) => serde_json::from_str::<Vec<Value>>(&s).unwrap_or_default(),
+        Err(_) => vec![],
+    }
+}
+
+fn nontrivial(schema: &Value) -> bool {
+    // has at least one property, definition, enum, or combinator
+    let s = schema.to_string();
+    s.contains("\"properties\":{\"") || s.contains("\"$defs\":{\"") || s.contains("\"enum\"") || s.contains("Of\"")
+}
+
 fn main() {
     let args = Args::parse();
+    let seed = args.u64("seed", 1);
+    let n = args.usize("n", 100);
+    let corpus = load_corpus(&args.str("corpus", ""));
+    let mut g = Gen { rng: Rng::new(seed ^ 0xC40), stats: BTreeMap::new(), defs: vec![] };
     match args.cmd.as_str() {
-        "one" => {
-            let s = args.str("schema", "{}");
-            let v: Value = serde_json::from_str(&s).unwrap();
-            let o = observe(&v);
-            if let Some(t) = o.get("text").and_then(|t| t.as_str()) {
-                eprintln!("{}", t);
+        "corr" => {
+            for s in corpus.iter().cloned().chain((0..n).map(|_| g.schema())).collect::<Vec<_>>() {
+                let o = observe(&s);
+                let mut chars = std::collections::BTreeSet::new();
+                collect_chars(&s, &mut chars);
+                let alpha: Vec<u32> = chars.iter().filter(|c| !c.is_ascii() && c.is_alphabetic()).map(|c| *c as u32).collect();
+                let alnum: Vec<u32> = chars.iter().filter(|c| !c.is_ascii() && c.is_alphanumeric()).map(|c| *c as u32).collect();
+                println!("{}", json!({"schema": s, "text": o.text, "root": o.root, "panic": o.panic, "alpha": alpha, "alnum": alnum}));
             }
-            println!("{}", o);
         }
-        _ => std::process::exit(2),
+        "search" => {
+            let mut count = 0usize;
+            let mut distinct = std::collections::HashSet::new();
+            let mut nviol = 0usize;
+            let mut outlen = 0usize;
+            let all: Vec<Value> = corpus.iter().cloned().chain((0..n).map(|_| g.schema())).collect();
+            for s in all {
+                let o = observe(&s);
+                count += 1;
+                outlen += o.text.len();
+                if nontrivial(&s) {
+                    distinct.insert(s.to_string());
+                }
+                if nviol < 60 {
+                    for v in violations(&s, &o) {
+                        println!("{}", v);
+                        nviol += 1;
+                    }
+                }
+            }
+            let mut summary = Map::new();
+            summary.insert("cases".into(), json!(count));
+            summary.insert("distinct_nontrivial".into(), json!(distinct.len()));
+            summary.insert("violations_printed".into(), json!(nviol));
+            summary.insert("output_bytes".into(), json!(outlen));
+            for (k, v) in &g.stats {
+                summary.insert((*k).into(), json!(v));
+            }
+            println!("{}", json!({"summary": summary}));
+        }
+        "one" => {
+            let s: Value = serde_json::from_str(&args.str("schema", "{}")).unwrap();
+            let o = observe(&s);
+            println!("{}", json!({"schema": s, "text": o.text, "root": o.root, "panic": o.panic, "errors": o.errors, "declared": o.declared}));
+            for v in violations(&s, &o) {
+                println!("{}", v);
+            }
+        }
+        _ => {
+            eprintln!("usage: c40 corr|search|one");
+            std::process::exit(2);
+        }
     }
 }
